@@ -112,7 +112,7 @@ func vpH_C02_merge() {
 	ncfg := 2
 	if vpThorough() {
 		maxB = 2
-		tpl, tplB = vpMergeTemplates, vpMergeTemplates
+		tpl, tplB = vpMergeTemplates, []int{2, 3, 5, 10}
 		ncfg = len(vpMergeCfgs)
 	}
 	a := g.batch("A", 1, 2, tpl)
@@ -151,10 +151,7 @@ func vpH_C02_merge3() {
 	}
 	sb := vpBuild(b, 1025)
 	sc := vpBuild(c, 1)
-	out := uint32(0) // thorough: every output mode of vpModes
-	if !vpThorough() {
-		out = []uint32{1025, 1}[vpChoice("out", 2)]
-	}
+	out := []uint32{1025, 1}[vpChoice("out", 2)]
 	vpMergeCheckMode(g, [][]*vpDoc{a, b, c}, []*Segment{sa, sb, sc}, "m", out)
 	vpReach("C02 merge3 end")
 }
